@@ -10,7 +10,8 @@ quantify over EVERY choice list: every fault plan, every interleaving, every sel
 The theorems hold for the repaired flags; each `…_counterexample` refutes the statement for the variant that
 lacks the corresponding repair.
 -/
-import Pandora.Proofs.C05Prog
+import Pandora.Proofs.C05Eng
+import Pandora.Bridge.C05Engine
 
 namespace Pandora.Props.C05
 open Pandora.Model.C05 Pandora.Proofs.C05
@@ -237,6 +238,74 @@ theorem C05_guns_never_closed_twice (cfg : Cfg) (cs : List Choice) :
   · have := hi.live0 i hi1 g hi2
     omega
 
+/-- A nil result of `Pool.Run` means the pool is completely finished — with NO fairness or contract assumption:
+all four results were awaited (so every started instance has returned and its result was consumed, the provider and the
+aggregator have returned, the start goroutine has ended), `onWaitDone` was called exactly once, and every gun created
+(warm-up gun included) is accounted for: closed exactly once if it is an `io.Closer` (with `fixClose`). This is the
+"successful run awaits all started tasks" the comment of `Engine.Wait` relies on. -/
+theorem C05_success_is_done (cfg : Cfg) (cs : List Choice) :
+    (run cfg cs).result = some .ok → Done cfg (run cfg cs) := by
+  intro hr
+  have hm : (run cfg cs).main = .returned .ok := by
+    simp only [State.result] at hr
+    split at hr
+    · rename_i r' hm; cases hr; exact hm
+    · cases hr
+  exact done_of_ok cfg _ (run_invA cfg cs) (run_invB cfg cs) (run_invG cfg cs) hm
+
+/-- A run ALWAYS terminates — also when nobody cancels it: under the finite-input contract `MustFin` (`Must`, and the
+startup schedule ends, and every `instance.Run` returns because ammo and schedules are finite) a state in which no
+step that is bound to happen can change anything is a finished pool. Unlike `C05_wait_returns` this does not assume
+the run context cancelled: that the engine cancels it itself once the last instance result is awaited is part of the
+proof (`runC_of_quiescentFin`). -/
+def C05_run_terminates_statement (cfg : Cfg) : Prop :=
+  ∀ cs : List Choice, QuiescentFin cfg (run cfg cs) → Done cfg (run cfg cs)
+
+theorem C05_run_terminates (cfg : Cfg) (hfix : cfg.fixWaitDone = true) : C05_run_terminates_statement cfg := by
+  intro cs hq
+  exact progress_fin cfg hfix _ (run_invA cfg cs) (run_invG cfg cs) (run_invR cfg cs) hq
+
+/-- … and in such a state the run context is cancelled, so `C05_background_terminates` bounds the way there from the
+moment the last instance result was awaited -/
+theorem C05_run_terminates_cancels (cfg : Cfg) (cs : List Choice) :
+    QuiescentFin cfg (run cfg cs) → (run cfg cs).runC = true :=
+  runC_of_quiescentFin cfg _ (run_invA cfg cs) (run_invG cfg cs) (run_invR cfg cs)
+
+/-- "if the caller cancels a run that is still in progress it returns the cancellation error": as a statement about
+`Pool.Run` alone this is FALSE for the code (every variant): when the cancel arrives while a component error is being
+handed over, or while the await goroutine is closing `awaitErr`, the final `select` of `Pool.Run` has two ready cases and
+Go picks one at random. -/
+def C05_cancel_result_statement (cfg : Cfg) : Prop :=
+  ∀ cs : List Choice, ∀ r, (run cfg cs).result = some r → (run cfg cs).extAtReturn = true → r = .ctx
+
+/-- the caller cancels while the provider's error waits in `onErrAwaited`; the select takes the error -/
+def cancelFailWitness : List Choice :=
+  [.warm (.ok true), .sched none, .provRet (.err 1), .awaitProv, .extCancel, .errDeliver]
+
+/-- the caller cancels at the moment the last result was awaited; the select takes the closed channel -/
+def cancelOkWitness : List Choice :=
+  [.warm (.ok true), .sched none, .startEnd, .awaitStart, .provRet .ok, .awaitProv, .aggRet .ok, .awaitAgg, .extCancel,
+   .mainClosed]
+
+theorem C05_cancel_result_counterexample (cfg : Cfg) : ¬ C05_cancel_result_statement cfg := by
+  intro h
+  have := h cancelFailWitness (.fail .provider (.err 1)) (by cases cfg; rfl) (by cases cfg; rfl)
+  cases this
+
+/-- what does hold after a caller's cancel, for `Pool.Run`: the result is the cancellation error, or a nil result of
+a pool that is completely finished (`Done`: it was not "still in progress"), or a failure whose cause is a real
+component error. `Engine.Run` turns the last kind into the cancellation error (`C05_engine_cancelled`). -/
+theorem C05_cancel_result_partial (cfg : Cfg) (cs : List Choice) (r : PRes) :
+    (run cfg cs).result = some r → (run cfg cs).extAtReturn = true →
+      r = .ctx ∨ (r = .ok ∧ Done cfg (run cfg cs)) ∨ ∃ w e, r = .fail w (.err e) ∧ e ∈ (run cfg cs).compErrs := by
+  intro hr _
+  cases r with
+  | ctx => exact Or.inl rfl
+  | ok => exact Or.inr (Or.inl ⟨rfl, C05_success_is_done cfg cs hr⟩)
+  | fail w c =>
+    obtain ⟨e, hc, he⟩ := C05_failure_cause cfg cs w c hr
+    exact Or.inr (Or.inr ⟨w, e, by rw [hc], he⟩)
+
 /-! ### `Engine.Run` over several pools -/
 
 /-- the engine succeeds only if it consumed a nil result from each of its `n` pools -/
@@ -314,6 +383,95 @@ theorem C05_engine_ctx (n : Nat) (evs : List EEv) :
             exact Or.inr ⟨id', r', List.mem_cons_self⟩
           · cases h
 
+/-- after a cancel of the engine's context `Engine.Run` never reports a pool failure: it returns the cancellation
+error, or nil when every pool had already delivered a nil result (`EngCancelled`: whenever the non-blocking check after a
+pool error looks at the context, it is done) -/
+theorem C05_engine_cancelled (n : Nat) (evs : List EEv) (res : ERes) :
+    EngCancelled evs → engRun n evs = some res → res = .ctx ∨ res = .ok :=
+  fun hc h => engRun_cancelled n evs hc res h
+
+/-- the whole engine: `n` pools, pool `i` executing `pools i`, each pool goroutine sending at most one result
+(`Nodup`), every result event being the result of its pool. If `Engine.Run` returns nil then EVERY pool returned nil,
+every pool is completely finished (`Done`: all instances, provider, aggregator stopped, `onWaitDone` called, guns
+closed), and — unless the caller had cancelled that pool — no component of any pool had failed. -/
+theorem C05_engine_success_all_pools (cfg : Cfg) (hfix : cfg.fixSelect = true) (n : Nat) (pools : Nat → List Choice)
+    (evs : List EEv)
+    (hid : ∀ id r d, EEv.pool id r d ∈ evs → id < n ∧ (run cfg (pools id)).result = some r)
+    (hnd : (evs.filterMap EEv.poolId).Nodup) (hok : engRun n evs = some .ok) :
+    ∀ i, i < n → (run cfg (pools i)).result = some .ok ∧ Done cfg (run cfg (pools i)) ∧
+      ((run cfg (pools i)).extAtReturn = false → (run cfg (pools i)).errsAtReturn = []) := by
+  intro i hi
+  obtain ⟨d, hmem⟩ := engRun_ok_all n evs (fun id r d h => (hid id r d h).1) hnd hok i hi
+  have hr := (hid i .ok d hmem).2
+  exact ⟨hr, C05_success_is_done cfg _ hr, C05_success_only_if_clean cfg hfix _ hr⟩
+
+/-- `Engine.Wait`: the engine adds one to its `WaitGroup` per pool and hands `Done` to the pool as `onWaitDone`
+(`Bridge.C05Engine.engineRun_pool_start`, `newPool_waitDone`). The counter never goes negative (no "negative WaitGroup
+counter" panic, every variant), and it is zero — `Engine.Wait` returns — once every pool is `Done`. -/
+theorem C05_engine_wait (cfg : Cfg) (pools : List (List Choice)) :
+    (wgCounter (pools.map (run cfg))).isSome = true ∧
+    ((∀ cs ∈ pools, Done cfg (run cfg cs)) → wgCounter (pools.map (run cfg)) = some 0) := by
+  have hle : waitDoneSum (pools.map (run cfg)) ≤ (pools.map (run cfg)).length :=
+    waitDoneSum_le _ (by
+      intro s hs
+      obtain ⟨cs, _, rfl⟩ := List.mem_map.1 hs
+      exact (C05_wait_done_at_most_once cfg cs).1)
+  refine ⟨by unfold wgCounter; rw [if_pos hle]; rfl, ?_⟩
+  intro hd
+  have heq : waitDoneSum (pools.map (run cfg)) = (pools.map (run cfg)).length :=
+    waitDoneSum_eq _ (by
+      intro s hs
+      obtain ⟨cs, hcs, rfl⟩ := List.mem_map.1 hs
+      exact (hd cs hcs).waitDone)
+  unfold wgCounter
+  rw [if_pos (Nat.le_of_eq heq), heq, Nat.sub_self]
+
+/-! ### the source as it is now (regenerated into `Pandora.Gen.C05Engine` on every run)
+
+`Bridge.C05Engine.srcCfg` is the code variant read off the CURRENT source: which context the select of
+`onErrAwaited` listens on, whether the `runAsync` failure path of `instancePool.Run` calls `onWaitDone`, whether the
+warm-up gun and a gun whose `Bind` failed are closed. The theorems above are instantiated at it, so reverting one of the
+repairs (or any change of the regenerated paths that makes a hypothesis false) breaks an obligation here. -/
+
+/-- the current source is the repaired variant of the model -/
+theorem C05_source_variant : Bridge.C05Engine.srcCfg = Cfg.repaired := Bridge.C05Engine.srcCfg_repaired
+
+theorem C05_source_no_swallow : C05_no_swallow_statement Bridge.C05Engine.srcCfg :=
+  C05_no_swallow _ (by decide)
+
+theorem C05_source_wait_returns : C05_wait_returns_statement Bridge.C05Engine.srcCfg :=
+  C05_wait_returns _ (by decide)
+
+theorem C05_source_guns_closed : C05_guns_closed_statement Bridge.C05Engine.srcCfg :=
+  C05_guns_closed _ (by decide) (by decide)
+
+theorem C05_source_run_terminates : C05_run_terminates_statement Bridge.C05Engine.srcCfg :=
+  C05_run_terminates _ (by decide)
+
+/-- how the CLI reports the outcome (cli/cli.go, regenerated): `runEngine` forwards the result of `Engine.Run`; nil
+ends the process normally; any error cancels the run context, waits for the engine's tasks (`Engine.Wait`) and then
+exits through `log.Fatal` (status 1) — in that order -/
+theorem C05_cli_reports_outcome :
+    Gen.C05Engine.cliRunEngine.all (fun p => (p.after (.call "Run")).contains (.send "errs")) = true ∧
+    Gen.C05Engine.cliEngineReturned.map (fun p => (p.head?, p.filter (fun e => match e with | .call _ => true | _ => false))) =
+      [(some (.swc "err=nil"), []),
+       (some (.swc "err=err"), [.call "gracefulShutdown", .call "Wait", .call "Fatal"]),
+       (some (.swc "err=<none>"), [])] :=
+  ⟨Bridge.C05Engine.cli_forwards, Bridge.C05Engine.cli_outcomes⟩
+
+/-- `errutil.IsCtxError` as regenerated from the source: nil, or the error's cause is the `Err()` of THIS context —
+never "some context-kind error" — and under the abstraction `absRet` of Go errors it is the predicate the model uses -/
+theorem C05_is_ctx_error_exact (c : Option CtxKind) (e : Option GoErr) :
+    Gen.C05Engine.isCtxError c e = isCtxErrorSpec c e ∧
+    Gen.C05Engine.isCtxError c e = (absRet c e).isCtxError c.isSome :=
+  ⟨Bridge.C05Engine.isCtxError_spec c e, Bridge.C05Engine.isCtxError_abs c e⟩
+
+/-- a component failure whose cause is the component's own deadline is forwarded, also after the engine has cancelled
+its run context (whose error is `context.Canceled`) -/
+example : Gen.C05Engine.isCtxError (some .canceled) (some (.ctxKind .deadlineExceeded)) = false := by decide
+example : absRet (some .canceled) (some (.ctxKind .deadlineExceeded)) = .err 1001 := by decide
+example : absRet (some .canceled) (some (.ctxKind .canceled)) = .ctx := by decide
+
 /-! ### non-vacuity: concrete executions that meet the hypotheses -/
 
 /-- repaired tree, the execution of `swallowWitness` up to the provider error: the awaiter is blocked in
@@ -362,5 +520,34 @@ example : instRun false [.shot, .shot, .shotPanic 7, .shot] = .err 7 := by decid
 example : engRun 2 [.pool 1 (.fail .provider (.err 1)) false, .pool 0 .ok false] = some (.fail 1 (.fail .provider (.err 1))) := by
   decide
 example : engRun 2 [.pool 1 .ok false, .pool 0 .ok false] = some .ok := by decide
+-- the hypotheses of `C05_engine_success_all_pools` are met by two clean pools whose results arrive in reverse order
+example : ([EEv.pool 1 .ok false, EEv.pool 0 .ok false].filterMap EEv.poolId).Nodup := by decide
+example : (run Cfg.repaired cleanWitness).result = some .ok := by decide
+-- cancelled engine: a failed pool is reported as the cancellation
+example : engRun 2 [.pool 1 (.fail .provider (.err 1)) true, .pool 0 .ok false] = some .ctx ∧
+    EngCancelled [.pool 1 (.fail .provider (.err 1)) true, .pool 0 .ok false] := by
+  refine ⟨by decide, ?_⟩
+  intro id r d hm hr
+  simp only [List.mem_cons, EEv.pool.injEq, List.not_mem_nil, or_false] at hm
+  rcases hm with ⟨_, _, h⟩ | ⟨_, h, _⟩
+  · exact h
+  · exact absurd h hr
+-- the two races of `C05_cancel_result_counterexample`, in the repaired variant
+example : (run Cfg.repaired cancelFailWitness).result = some (.fail .provider (.err 1)) ∧
+    (run Cfg.repaired cancelFailWitness).extAtReturn = true := by decide
+example : (run Cfg.repaired cancelOkWitness).result = some .ok ∧ (run Cfg.repaired cancelOkWitness).extAtReturn = true := by
+  decide
+-- a run nobody cancels that is quiescent under the finite-input contract: the clean run above
+example : QuiescentFin Cfg.repaired (run Cfg.repaired cleanWitness) := by
+  intro c hm
+  cases c <;> first | exact False.elim hm | rfl | (simp [step, run, cleanWitness, init, mainReturn, cancelAll, handleRes, afterErr, checkAll, finish, Ret.isCtxError])
+-- … whereas mid-run (an instance still shooting, nobody cancelled) `instRet` is bound to happen and changes the state
+example : ¬ QuiescentFin Cfg.repaired (run Cfg.repaired [.warm (.ok true), .sched none, .startFirst (.ok true)]) := by
+  intro h
+  have := h (.instRet 0 .ooa) trivial
+  revert this
+  decide
+-- WaitGroup: two finished pools
+example : wgCounter ([cleanWitness, waitWitness].map (run Cfg.repaired)) = some 0 := by decide
 
 end Pandora.Props.C05
